@@ -16,7 +16,7 @@ RULE = ("per version: seeded random histories over all public manager operations
 
 
 def worker(version, args):
-    common.lib_setup()
+    common.lib_setup(xs_check=True)
     from AoE2ScenarioParser.scenarios.aoe2_de_scenario import AoE2DEScenario
     R = common.Result(RULE); R.export_keys = True
     drv = common.Driver(args["driver"]) if args.get("driver") else None
